@@ -52,12 +52,22 @@ func mkCert(dir, name string, tmpl *x509.Certificate, parent *x509.Certificate, 
 	return c, key, cp, kp
 }
 
+var certDir string
+
+// CleanupCerts removes the per-process certificate directory (called by Main on exit).
+func CleanupCerts() {
+	if certDir != "" {
+		_ = os.RemoveAll(certDir)
+	}
+}
+
 func GetCerts() *Certs {
 	certOnce.Do(func() {
 		dir, err := os.MkdirTemp("", "frp-verif-certs")
 		if err != nil {
 			panic(err)
 		}
+		certDir = dir
 		serial := int64(100)
 		tmpl := func(cn string, ca bool, names ...string) *x509.Certificate {
 			serial++
